@@ -271,7 +271,7 @@ def free_consts(exprs):
     return list(out.values())
 
 
-def decide(assertions, timeout_ms=20000):
+def _decide_once(assertions, timeout_ms=20000):
     """first the arithmetic-abstracted query (fast: EUF + comparisons + instantiated IEEE facts).  If that is sat, its
     model is tried as a candidate on the EXACT query (inputs fixed to the candidate values: arithmetic constant-folds);
     only if the candidate is spurious the exact query is attempted as a whole."""
@@ -506,7 +506,7 @@ def contract_axioms(exprs):
     return out
 
 
-def decide_with_contracts(assertions, timeout_ms=20000):
+def _decide_with_contracts_once(assertions, timeout_ms=20000):
     ab = [abstract_arith(a) for a in assertions]
     extra = arith_axioms(ab) + contract_axioms(ab)
     st, model = inproc_unsat(ab + extra, timeout_ms)
@@ -519,3 +519,19 @@ def decide_with_contracts(assertions, timeout_ms=20000):
         if st2 == 'sat':
             return 'sat', model2
     return inproc_unsat(ex, timeout_ms)
+
+
+def decide(assertions, timeout_ms=20000):
+    """_decide_once; an undecided answer (a time-out, e.g. on a loaded machine) is retried once with six times the budget -
+    a time-out is never counted as success, but it should not make a check on an unchanged tree inconclusive either"""
+    st, model = _decide_once(assertions, timeout_ms)
+    if st not in ('sat', 'unsat'):
+        st, model = _decide_once(assertions, 6 * timeout_ms)
+    return st, model
+
+
+def decide_with_contracts(assertions, timeout_ms=20000):
+    st, model = _decide_with_contracts_once(assertions, timeout_ms)
+    if st not in ('sat', 'unsat'):
+        st, model = _decide_with_contracts_once(assertions, 6 * timeout_ms)
+    return st, model
